@@ -223,9 +223,8 @@ func dnsGenQtypeCond(T *verifsim.Tape) dnsCond {
 func dnsGenRuleSet(T *verifsim.Tape, tags []string, names []int, rich bool, allowReject bool) *dnsRuleSet {
 	rs := &dnsRuleSet{tags: tags, respFallback: "accept"}
 	reqOuts := append([]string{}, tags...)
-	if rich {
-		reqOuts = append(reqOuts, "asis")
-	}
+	// "asis": the question goes to the resolver the client addressed; such answers are scoped by resolver
+	reqOuts = append(reqOuts, "asis")
 	rs.reqFallback = reqOuts[T.Choose(len(reqOuts))]
 	nReq := 0
 	if rich {
